@@ -494,3 +494,95 @@ def iteration_source(ctx: Ctx, cls_name: str, f: FuncInfo, loop: ast.For) -> dic
     res = _describe_generators(ctx, cls_name, sn, defs, gens, elt, None)
     res["body"] = body
     return res
+
+
+def ctor_arguments(ctx: Ctx, call: ast.Call, cls_name: str) -> dict | None:
+    """field name -> argument expression of a constructor call, positional arguments mapped through the dataclass field order
+    (annotated class attributes) or the __init__ parameters.  None if the class or an argument cannot be mapped."""
+    try:
+        ci = ctx.prog.cls(cls_name)
+    except Exception:
+        return None
+    init = ci.methods.get("__init__")
+    if init is not None:
+        names = init.params()[1:]
+    else:
+        names = [st.target.id for st in ci.node.body if isinstance(st, ast.AnnAssign) and isinstance(st.target, ast.Name)]
+    if any(isinstance(a, ast.Starred) for a in call.args) or any(k.arg is None for k in call.keywords) or len(call.args) > len(names):
+        return None
+    out = dict(zip(names, call.args))
+    for k in call.keywords:
+        out[k.arg] = k.value
+    return out
+
+
+def step_method(ctx: Ctx, ci) -> FuncInfo | None:
+    """The method that implements a deme class's metaepoch: run_metaepoch, or - when that is a bare delegation
+    `self.<m>(...)` to a (possibly inherited) template method - the method delegated to."""
+    f = ctx.prog.lookup_method(ci, "run_metaepoch")
+    hops = 0
+    while f is not None and hops < 3:
+        body = [s for s in f.node.body if not (isinstance(s, ast.Expr) and isinstance(s.value, ast.Constant))]
+        if len(body) == 1 and isinstance(body[0], (ast.Expr, ast.Return)) and isinstance(body[0].value, ast.Call):
+            c = body[0].value
+            if isinstance(c.func, ast.Attribute) and isinstance(c.func.value, ast.Name) and c.func.value.id == f.self_name():
+                m = ctx.prog.lookup_method(ci, c.func.attr)
+                if m is not None and m is not f:
+                    f = m
+                    hops += 1
+                    continue
+        break
+    return f
+
+
+def opaque_step_helpers(ctx: Ctx, f: FuncInfo) -> list[ast.Call]:
+    """Calls in f to methods of the same object (`self._helper(...)`) that were not inlined and that evaluate the objective or
+    receive the tree: part of the metaepoch's control flow (generation loop, stop-condition consults) lives in them, out of
+    sight of an intraprocedural rule.  Engine objects (`self._ea.run`) and logging are not meant."""
+    sn = f.self_name()
+    out = []
+    if sn is None:
+        return out
+    for cs in ctx.res.callsites(f):
+        c = cs.node
+        if not (isinstance(c, ast.Call) and isinstance(c.func, ast.Attribute) and isinstance(c.func.value, ast.Name) and c.func.value.id == sn):
+            continue
+        if c.func.attr in ("log", "run", "add_child") or not c.func.attr.startswith("_"):
+            continue
+        tree_arg = any(isinstance(a, ast.Name) and a.id in f.params()[1:2] for a in c.args)
+        if any(ctx.eff.has(t, "EVAL") for t in cs.targets) and (tree_arg or any(stop_calls_in(ctx, t, t.node, "gsc") for t in cs.targets)):
+            out.append(c)
+    return out
+
+
+def private_closure(ctx: Ctx, allowed: set[str]) -> set[str]:
+    """`allowed` (qualnames) plus every private function / method (leading underscore, not dunder) all of whose call sites in
+    pyhms lie in the set: code that was merely moved out of an allowed function into a helper stays behind that function."""
+    out = set(allowed)
+    grew = True
+    while grew:
+        grew = False
+        for g in ctx.prog.all_functions():
+            if g.qualname in out or g.name == "<module>" or not (g.name.startswith("_") and not g.name.startswith("__")):
+                continue
+            callers = ctx.res.callers_of(g)
+            if callers and all(cs.caller.qualname in out for cs in callers):
+                out.add(g.qualname)
+                grew = True
+    return out
+
+
+def opaque_deme_calls(ctx: Ctx, f: FuncInfo, within: ast.AST, attr: str) -> list[ast.Call]:
+    """Calls inside `within` to private methods of another object whose (transitive) effects or body mention `attr`
+    (e.g. `deme._is_suspended(options)` reading `_hibernating`): logic about `attr` that lives behind a method call."""
+    out = []
+    inside = {id(x) for x in ast.walk(within)}
+    for cs in ctx.res.callsites(f):
+        c = cs.node
+        if id(c) not in inside or not (isinstance(c, ast.Call) and isinstance(c.func, ast.Attribute) and c.func.attr.startswith("_") and not c.func.attr.startswith("__")):
+            continue
+        if isinstance(c.func.value, ast.Name) and c.func.value.id == f.self_name():
+            continue
+        if any(any(isinstance(x, ast.Attribute) and x.attr == attr for x in ast.walk(t.node)) for t in cs.targets):
+            out.append(c)
+    return out
